@@ -1,8 +1,10 @@
 package c04
 
 import (
+	"fmt"
 	"verifharness/corpus"
 	"verifharness/mut"
+	"verifharness/ref/boxwalk"
 )
 
 var removable = []string{"trak", "mvex", "trex", "stsd", "traf", "tfhd", "trun", "tfdt", "mfhd", "mdhd", "hdlr", "stts", "stsz", "stsc", "stco",
@@ -251,6 +253,65 @@ func removeAll(es []*mut.E, t string) []*mut.E {
 			e.Children = removeAll(e.Children, t)
 		}
 		out = append(out, e)
+	}
+	return out
+}
+
+// fieldSweep writes boundary values over every 32-bit position of the first
+// moof of small files whose fragments carry protection boxes (senc with sample
+// groups, saiz/saio): fields like group_description_index or aux-info offsets
+// are only interpreted in file context, after the boxes themselves decoded.
+func fieldSweep() []corpus.Seed {
+	var out []corpus.Seed
+	type host struct {
+		name string
+		data []byte
+		step int
+		max  int
+	}
+	var hosts []host
+	mdat := []byte{0, 0, 0, 24, 'm', 'd', 'a', 't', 1, 2, 3, 4, 5, 6, 7, 8, 9, 10, 11, 12, 13, 14, 15, 16}
+	for i := range cor.Boxes {
+		b := &cor.Boxes[i]
+		if b.Kind == "built" && b.Type == "moof" {
+			hosts = append(hosts, host{b.Name + "+mdat", append(append([]byte{}, b.Data...), mdat...), 1, 1 << 20})
+		}
+	}
+	for _, f := range cor.Files {
+		d := mut.ShrinkMdat(f.Data, 64)
+		es := mut.Parse(d)
+		if es == nil || len(d) > 8192 {
+			continue
+		}
+		if m := findTop(es, "moof"); m != nil && findType([]*mut.E{m}, "senc") != nil {
+			hosts = append(hosts, host{f.Name, d, 4, 160})
+		}
+	}
+	vals := []uint32{0, 1, 2, 0x10000, 0x10001, 0x10002, 0x10003, 0x7fffffff, 0x80000000, 0xfffffffe, 0xffffffff}
+	for _, h := range hosts {
+		ns, err := boxwalk.Walk(h.data)
+		if err != nil {
+			continue
+		}
+		for _, n := range ns {
+			if n.Type != "moof" {
+				continue
+			}
+			cnt := 0
+			for o := n.Start + 8; o+4 <= n.End() && cnt < h.max; o += h.step {
+				cnt++
+				orig := uint32(h.data[o])<<24 | uint32(h.data[o+1])<<16 | uint32(h.data[o+2])<<8 | uint32(h.data[o+3])
+				for _, v := range append([]uint32{orig + 1, orig - 1}, vals...) {
+					if v == orig {
+						continue
+					}
+					d := append([]byte{}, h.data...)
+					d[o], d[o+1], d[o+2], d[o+3] = byte(v>>24), byte(v>>16), byte(v>>8), byte(v)
+					out = append(out, corpus.Seed{Name: fmt.Sprintf("%s#sweep@%d", h.name, o), Kind: "crafted", Data: d})
+				}
+			}
+			break
+		}
 	}
 	return out
 }
